@@ -35,7 +35,9 @@ const (
 	BindRedirect = "urn:oasis:names:tc:SAML:2.0:bindings:HTTP-Redirect"
 	BindArtifact = "urn:oasis:names:tc:SAML:2.0:bindings:HTTP-Artifact"
 	BindPAOS     = "urn:oasis:names:tc:SAML:2.0:bindings:PAOS"
-	BindSOAP     = "urn:oasis:names:tc:SAML:2.0:bindings:SOAP"
+	BindSimpleSign = "urn:oasis:names:tc:SAML:2.0:bindings:HTTP-POST-SimpleSign"
+	BindSOAP       = "urn:oasis:names:tc:SAML:2.0:bindings:SOAP"
+	BindURI        = "urn:oasis:names:tc:SAML:2.0:bindings:URI"
 	EncDeflate   = "urn:oasis:names:tc:SAML:2.0:bindings:URL-Encoding:DEFLATE"
 	FmtBasic     = "urn:oasis:names:tc:SAML:2.0:attrname-format:basic"
 	TimeLayout   = "2006-01-02T15:04:05.999999Z"
